@@ -13,7 +13,9 @@ Oracle (odxmodel.refcompare, by ODX object identity, no odxtools):
     the edited element belongs to, in every layer the service is applicable to, and nothing else;
   * the rows of print_dl_metrics (rich Table object intercepted at the module's rich_print; also through
     odxtools.cli.list.print_summary) equal the numbers of applicable services, DATA-OBJECT-PROPs and COMPARAM-REFs,
-    for every base database and every edited database;
+    for every base database and every edited database, for every ORDER in which the layers are listed (database
+    order, reverse, all ordered pairs; base databases: also single layers and all permutations of up to 5 layers);
+    the generated database `shared` has its ECU-SHARED-DATA layer in a second container after layers with comparams;
   * additionally every ordered pair of different layers of a base database (`compare -v A B`) is judged by the same
     identity-based difference.
 The Comparison object is set up the way odxtools.cli.compare.run() does it.  Where the reference cannot decide by the
@@ -38,7 +40,7 @@ from odxmodel import emit, emit_compare as ec, refcompare as ref
 PROPERTY = "C18"
 LEVEL = "exploration"
 
-QUICK_DBS = ["single", "flat", "tree", "somersault"]
+QUICK_DBS = ["single", "flat", "tree", "shared", "somersault"]
 THOROUGH_DBS = QUICK_DBS + ["somersault_modified"]
 CATS = ["new", "deleted", "renamed", "changed"]
 KEYWORDS = {"byte-position": ["byte"], "bit-length": ["bit"], "coded-value": ["value"], "semantic": ["semantic"],
@@ -177,11 +179,14 @@ def capture_via_list_tool(db: Any) -> Optional[Dict[str, Dict[str, str]]]:
     return index_rows([{h: cells[i] for h, cells in cols} for i in range(n)])
 
 
-def capture_metrics(db: Any, force_text: bool = False) -> Tuple[Optional[Dict[str, Dict[str, str]]], str]:
+def capture_metrics(db: Any, force_text: bool = False, order: Optional[List[str]] = None) -> Tuple[Optional[Dict[str, Dict[str, str]]], str]:
     """rows of print_dl_metrics as {layer name: {column header: cell}}.  Primary: intercept the rich Table object the
     function hands to its module-level rich_print; fallback: render to a wide text console and split the rows."""
     from odxtools.cli import _print_utils as pu
     layers = list(db.diag_layers)
+    if order is not None:
+        by_name = {dl.short_name: dl for dl in layers}
+        layers = [by_name[n] for n in order]
     got: List[Any] = []
     if hasattr(pu, "rich_print") and not force_text:
         orig = pu.rich_print
@@ -293,28 +298,68 @@ def judge(kind: str, edit: Optional[str], exp: Dict[str, Any], obs: Dict[str, An
     return out
 
 
-def judge_metrics(files: Dict[str, str], db: Any) -> Tuple[List[Tuple[str, str]], int, str]:
+def layer_orders(names: List[str], full: bool) -> List[List[str]]:
+    """the orders in which the layers are handed to print_dl_metrics: the database order first, its reverse, every
+    ordered pair; for a base database (`full`) also every single layer and ALL permutations of up to 5 layers"""
+    orders: List[List[str]] = [list(names)]
+    if len(names) > 1:
+        orders.append(list(reversed(names)))
+    orders.extend([a, b] for a in names for b in names if a != b)
+    if full:
+        orders.extend([a] for a in names)
+        if len(names) <= 5:
+            orders.extend(list(p) for p in itertools.permutations(names))
+    seen, out = set(), []
+    for o in orders:
+        if tuple(o) not in seen:
+            seen.add(tuple(o))
+            out.append(o)
+    return out
+
+
+def judge_metrics(files: Dict[str, str], db: Any, full: bool = False) -> Tuple[List[Tuple[str, str]], int, str]:
+    """The overview table is requested for every order of layer_orders(); each row has to show the numbers of ITS layer
+    whatever rows precede it.  A wrong cell that is right in the database order gets the key suffix /order-dependent."""
     want = ref.metrics(files)
-    rows, how = capture_metrics(db)
+    names = [dl.short_name for dl in db.diag_layers]
     out: List[Tuple[str, str]] = []
-    if rows is None:
-        return [("C18/metrics/table-unavailable", "print_dl_metrics produced no table")], 0, how
-    for lname, w in want.items():
-        r = rows.get(lname)
-        if r is None:
-            out.append(("C18/metrics/row-missing", f"no row for layer {lname}; rows {sorted(rows)}"))
-            continue
-        s, d, c = cell(r, "service"), cell(r, "dop"), cell(r, "communication")
-        if s != str(w["services"]):
-            out.append(("C18/metrics/services", f"layer {lname}: table says {s} services, the XML has {w['services']} applicable DIAG-SERVICEs"))
-        if d != str(w["dops"]):
-            out.append(("C18/metrics/dops", f"layer {lname}: table says {d} DOPs, the XML has {w['dops']} applicable DATA-OBJECT-PROPs "
-                                            f"({w['own_dops']} local)"))
-        lo, hi = w["comparams"]
-        if c is None or not c.isdigit() or not lo <= int(c) <= hi:
-            out.append(("C18/metrics/comparams", f"layer {lname}: table says {c} communication parameters, the XML has {lo}"
-                                                 f"{'' if hi == lo else '..' + str(hi)} applicable COMPARAM-REFs ({w['own_comparams']} local)"))
-    return out, len(want), how
+    nrows = 0
+    how = "unavailable"
+    bad_in_db_order = set()
+    for oi, order in enumerate(layer_orders(names, full)):
+        rows, how = capture_metrics(db, order=order)
+        if rows is None:
+            return [("C18/metrics/table-unavailable", "print_dl_metrics produced no table")], nrows, how
+        sfx = "" if oi == 0 else "/order-dependent"
+        tag = "" if oi == 0 else f"[layers listed as {order}] "
+        if sorted(rows) != sorted(n for n in order if n in want) and oi > 0:
+            out.append(("C18/metrics/rows-differ-from-request", f"{tag}rows {sorted(rows)}"))
+        for lname in (order if oi > 0 else list(want)):
+            w = want.get(lname)
+            if w is None:
+                continue
+            r = rows.get(lname)
+            if r is None:
+                out.append(("C18/metrics/row-missing", f"{tag}no row for layer {lname}; rows {sorted(rows)}"))
+                continue
+            nrows += 1
+            s, d, c = cell(r, "service"), cell(r, "dop"), cell(r, "communication")
+            lo, hi = w["comparams"]
+            for col, ok, msg in (
+                ("services", s == str(w["services"]), f"table says {s} services, the XML has {w['services']} applicable DIAG-SERVICEs"),
+                ("dops", d == str(w["dops"]), f"table says {d} DOPs, the XML has {w['dops']} applicable DATA-OBJECT-PROPs ({w['own_dops']} local)"),
+                ("comparams", c is not None and c.isdigit() and lo <= int(c) <= hi,
+                 f"table says {c} communication parameters, the XML has {lo}{'' if hi == lo else '..' + str(hi)} applicable "
+                 f"COMPARAM-REFs ({w['own_comparams']} local)")):
+                if ok:
+                    continue
+                if oi == 0:
+                    bad_in_db_order.add((col, lname))
+                    out.append((f"C18/metrics/{col}", f"layer {lname} ({w['type']}): {msg}"))
+                else:
+                    k = f"C18/metrics/{col}" + ("" if (col, lname) in bad_in_db_order else sfx)
+                    out.append((k, f"{tag}layer {lname} ({w['type']}): {msg}"))
+    return out, nrows, how
 
 
 # ---------------------------------------------------------------------------------------------
@@ -376,7 +421,7 @@ def run_case(case: Dict[str, Any], part: Optional[Part] = None) -> List[Tuple[st
             cnt("layer_pairs")
             if part is not None and any(pe["diff"][c] for c in CATS):
                 part.add("nontrivial", digest((db_id, "pair", pname)))
-        probs, n, how = judge_metrics(files, db)
+        probs, n, how = judge_metrics(files, db, full=True)
         out.extend(probs)
         cnt("evaluations", n)
         cnt("metric_rows", n)
@@ -473,6 +518,8 @@ def run(ctx: Ctx) -> None:
     ctx.bounds = {"databases": db_ids, "service_edits": ec.SERVICE_EDITS, "param_edits": ec.PARAM_EDITS,
                   "roles_of_the_edited_input": ["edited-new", "edited-old"], "cases_per_database": dict(per_db),
                   "edits_per_case": 1,
+                  "layer_orders_for_the_overview": "database order, reverse, all ordered pairs; base databases also single layers and all "
+                                                   "permutations (<= 5 layers)",
                   "self_comparison_of_every_edited_database": "same object" + ("" if ctx.quick else " and independently loaded copy")}
     ctx.rule = ("every (database, edit kind, target) of the alphabet is built, loaded and compared in both roles through "
                 "compare_databases and compare_diagnostic_layers; non-trivial = distinct (database, edit, target, role) whose "
@@ -498,6 +545,11 @@ def run(ctx: Ctx) -> None:
     ctx.guard("all four change kinds expected somewhere", {"new", "deleted", "rename"} <= ctx.sets.get("expected_kinds", set()))
     ctx.guard("metrics table captured", ctx.sets.get("metrics_capture", set()) <= {"table-object", "text"} and bool(ctx.sets.get("metrics_capture")))
     ctx.guard("metric rows checked", c.get("metric_rows", 0) > 0)
+    sh = ref.metrics(ec.base_files("shared", repo_root()))
+    order = list(sh)
+    ctx.guard("a layer without communication parameters (ECU-SHARED-DATA) is listed after layers that have some",
+              any(sh[n]["type"] == "ECU-SHARED-DATA" and sh[n]["comparams"] == [0, 0] and any(sh[m]["comparams"][0] > 0 for m in order[:i])
+                  for i, n in enumerate(order)))
     ctx.sample({"db": "somersault", "edit": "rename", "target": ["somersault.service.session_start"]})
 
 
